@@ -207,7 +207,7 @@ def eval_sock(case, rep):
     if [x for x, _y in so] != sk[:len(so)]:
         add('stream-order', f'stream yielded inputs {[x for x, _ in so]}, fed {sk}')
     elif len(so) != len(sk):
-        add('no-response', f'stream yielded {len(so)} of {len(sk)} results; errors: {rep.get("errors")}')
+        add('stream-incomplete', f'stream yielded {len(so)} of {len(sk)} results; errors: {rep.get("errors")}')
     for x, y in so:
         if isinstance(x, int) and 0 <= x < len(reqs) and y != expected(x):
             rule = 'wrong-request' if y[0] in ('ok', 'err') and y[1] != x else 'response-corrupt'
